@@ -104,3 +104,20 @@ Theorem C06_attribute_names_unique :
   nodupb (map c_name compare_table) = true /\ nodupb (map fst regen_table) = true.
 Proof. exact attribute_names_unique. Qed.
 Print Assumptions C06_attribute_names_unique.
+
+(* ---- the index invariants after ANY history of public API calls (rf_write / rf_write_blocks in any
+   mix, accepted or refused), chunked layouts: gapped mode, and continuous mode with compression or
+   checksums.  (The un-chunked continuous layout is C07_api_files_full_block.) *)
+From DRF Require Import Model.PyWriter Proofs.PyApiHistory.
+
+Theorem C06_api_files_gapped : forall c ops, vcfg c -> c_chunk c = true -> c_cont c = false ->
+  Forall api_arg_ok ops ->
+  Forall (C06_file c) (all_files (p_w (fold_left (api_state c) ops py_init))).
+Proof. exact api_files_C06_gapped. Qed.
+Print Assumptions C06_api_files_gapped.
+
+Theorem C06_api_files_continuous_chunked : forall c ops, vcfg c -> c_chunk c = true -> c_cont c = true ->
+  Forall api_arg_ok ops ->
+  Forall (C06_file c) (all_files (p_w (fold_left (api_state c) ops py_init))).
+Proof. exact api_files_C06_continuous_chunked. Qed.
+Print Assumptions C06_api_files_continuous_chunked.
